@@ -331,7 +331,7 @@ def r07_a(ctx):
                     'branch conditions whose strict side ends in a raise; wherever strict parsing does not raise, '
                     'tolerant parsing follows the identical path', floor=2)
     rc = RuleResult('R07.c', 'the tolerant continuation of such a branch consumes nothing: tolerant mode only omits '
-                    'the raise', floor=2)
+                    'the raise', floor=1)
     noreturn = _noreturn_funcs(repo)
     n_conds = 0
     for fd in sorted(repo.all_funcs(), key=lambda f: f.fq):
@@ -573,7 +573,7 @@ def r11_c(ctx):
 def r11_d(ctx):
     repo = ctx.repo
     rr = RuleResult('R11.d', 'the raw scan stops at the first position where the upcoming text starts with the '
-                    'environment\'s own \\end{name}, scanning left to right one item at a time', floor=3)
+                    'environment\'s own \\end{name}, scanning left to right one item at a time', floor=1)
     fu = repo.need_cls('utils.Buffer').methods.get('forward_until', [None])[-1]
     if fu is None:
         raise AnalysisError('Buffer.forward_until vanished')
@@ -759,7 +759,9 @@ def r07_e(ctx):
     e = ctx.memo('cursor.engine.strict', lambda: cursor.analyse_reader(repo, {p: ('const', 0) for p in ps}))
     rr = RuleResult('R07.e', 'in strict mode the readers of environments, groups and math regions never return normally '
                     'with the input exhausted and no closer consumed: a lost closer is reported', floor=4)
-    want = ('reader.read_env', 'reader.read_arg', 'reader.read_math_env', 'reader.read_skip_env')
+    # (the raw reader of skipped environments is a text-level scan that may legitimately end exactly at the end
+    # of the input; its closer test is covered by R11.d / R08.b)
+    want = ('reader.read_env', 'reader.read_arg', 'reader.read_math_env')
     seen = set()
     for key, exits in sorted(e.memo.items(), key=str):
         if key[0] not in want:
@@ -781,4 +783,21 @@ def r07_e(ctx):
     missing = [w for w in want if w not in seen]
     if missing:
         raise AnalysisError('strict-mode contexts missing for %s' % missing)
+    return rr
+
+
+SKIP_REFERENCE = ('verbatim', 'lstlisting', 'verbatimtab', 'Verbatim', 'listing')
+
+
+def r11_e(ctx):
+    """the built-in verbatim-like names"""
+    repo = ctx.repo
+    rr = RuleResult('R11.e', 'the built-in set of verbatim-like environment names contains verbatim, lstlisting and the '
+                    'other names the library documents', floor=1)
+    names = repo.fold_global('tokens', 'SKIP_ENV_NAMES')
+    missing = [n for n in SKIP_REFERENCE if n not in names]
+    rr.ob(not missing, {'built_in_skip_names': list(names)})
+    if missing:
+        rr.fail(Finding('R11.e', 'tokens', 'SKIP_ENV_NAMES', 'SKIP_ENV_NAMES lacks %s' % missing,
+                        'the environments %s are no longer read raw: their bodies are parsed as LaTeX' % missing, line=0))
     return rr
